@@ -142,12 +142,13 @@ class QueueSink(Sink[Any]):
         self._foreach = foreach
 
     def write(self, item: Any) -> None:
-        try:
-            item = (item if self._foreach else [item])
-            for i in item:
+        #only errors raised by the queue itself are ignored (the queue was closed on us).
+        #The same errors raised while iterating `item` come from upstream and must propagate.
+        for i in (item if self._foreach else [item]):
+            try:
                 self._queue.put(i)
-        except (EOFError,BrokenPipeError,AssertionError):
-            pass
+            except (EOFError,BrokenPipeError,AssertionError):
+                break
 
 class LambdaSink(Sink[Any]):
     """A sink which passes written items to a callable function."""
